@@ -94,6 +94,23 @@ type c08Callbacks struct {
 // and would never end (in the proxy: the connection's read goroutine spins, creating streams forever).
 type c08Livelock struct{}
 
+// c08Buf counts the Len() calls on the read buffer: Dispatch asks at least once per loop iteration, a codec's
+// Decode a handful of times per frame. More than 32*(n+8) calls for n input bytes mean the loop is spinning
+// on unconsumed input without even handing frames up (e.g. responses nobody waits for).
+type c08Buf struct {
+	buffer.IoBuffer
+	calls *int
+	limit int
+}
+
+func (b c08Buf) Len() int {
+	*b.calls++
+	if *b.calls > b.limit {
+		panic(c08Livelock{})
+	}
+	return b.IoBuffer.Len()
+}
+
 func (cb *c08Callbacks) OnGoAway() {}
 func (cb *c08Callbacks) NewStreamDetect(ctx context.Context, sender types.StreamSender, span api.Span) types.StreamReceiveListener {
 	cb.budget--
@@ -159,11 +176,16 @@ func c08NewPeer(proto string) *c08Peer {
 func (p *c08Peer) dispatch(b []byte) (out string) {
 	p.cb.log, p.conn.writes = nil, nil
 	p.cb.budget = len(b) + 8
+	calls := 0
 	nclosed := len(p.conn.closed)
 	defer func() {
 		if r := recover(); r != nil {
 			if _, ok := r.(c08Livelock); ok {
-				out = fmt.Sprintf("LIVELOCK more than %d frames handed up from %d input bytes, first: %v", len(b)+8, len(b), p.cb.log[:1])
+				first := "none handed up"
+				if len(p.cb.log) > 0 {
+					first = p.cb.log[0]
+				}
+				out = fmt.Sprintf("LIVELOCK Dispatch still looping after %d frames handed up / %d buffer polls for %d input bytes; first frame: %s", len(p.cb.log), calls, len(b), first)
 				return
 			}
 			// the read loop's GoWithRecover closes the connection
@@ -172,7 +194,7 @@ func (p *c08Peer) dispatch(b []byte) (out string) {
 		}
 	}()
 	io := buffer.NewIoBufferBytes(b)
-	p.sc.Dispatch(io)
+	p.sc.Dispatch(c08Buf{IoBuffer: io, calls: &calls, limit: 32 * (len(b) + 8)})
 	return fmt.Sprintf("up=%v writes=%v closed=%v rest=%d", p.cb.log, p.conn.writes, p.conn.closed[nclosed:], io.Len())
 }
 
@@ -267,7 +289,7 @@ func TestVerifC08StreamConn(t *testing.T) {
 		Gen: c08ConnGen(), Exec: c08ExecConn,
 		Judge: func(c c08.Case, out string) (string, string) {
 			if strings.HasPrefix(out, "livelock") {
-				return fmt.Sprintf("%s class=%s Dispatch never returns: it keeps handing up frames without consuming the input", c.Target, c.Class),
+				return fmt.Sprintf("%s class=%s Dispatch never returns: it keeps decoding the same frame without consuming the input", c.Target, c.Class),
 					fmt.Sprintf("frame %q, %s; input=%s; %s", c.Frame, c.Desc, c.Hex, out)
 			}
 			if i := strings.Index(out, "B-CHANGED"); i >= 0 {
@@ -279,6 +301,6 @@ func TestVerifC08StreamConn(t *testing.T) {
 			}
 			return "", ""
 		},
-		Bound: "protocols bolt, boltv2, dubbo, dubbo-thrift, tars; connection A (fresh per input) receives every corruption of every frame of the codec alphabet (every truncation, length-field value, byte set, dangling/trailing bytes - the xcodecs alphabet without the short strings); connection B (one per protocol per process, so state accumulates over all inputs) receives the valid 'request with headers/body' before the first and after every input",
-		Rule:  "real server streamConn.Dispatch on fake connections; scripted receiver answering like the proxy (hijack reply 200 on receive, unknown-code reply on decode error); oracle: B's observation (frame handed up: headers + body; bytes written; close events; unconsumed bytes) after A's garbage equals B's observation before any garbage; outcome = what happened on A (waits|served|error-reply|closed|closed-by-recover|livelock); one Dispatch call handing up more than len(input)+8 frames is cut off by the harness and reported as never returning; a panic on A is counted as recovered by the read loop (assumed mechanism), not reported here; allocation and poison oracles as in xcodecs"})
+		Bound: "protocols bolt, boltv2, dubbo, dubbo-thrift, tars; connection A (fresh per input) receives every corruption of every frame of the codec alphabet (every truncation, length-field value, byte set {0x00,0xFF,^b} (thorough: all 256 values), dangling/trailing bytes - the xcodecs alphabet without the short strings); connection B (one per protocol per process, so state accumulates over all inputs) receives the valid 'request with headers/body' before the first and after every input",
+		Rule:  "real server streamConn.Dispatch on fake connections; scripted receiver answering like the proxy (hijack reply 200 on receive, unknown-code reply on decode error); oracle: B's observation (frame handed up: headers + body; bytes written; close events; unconsumed bytes) after A's garbage equals B's observation before any garbage; outcome = what happened on A (waits|served|error-reply|closed|closed-by-recover|livelock); one Dispatch call handing up more than len(input)+8 frames, or polling the buffer length more than 32*(len(input)+8) times, is cut off by the harness and reported as never returning; a panic on A is counted as recovered by the read loop (assumed mechanism), not reported here; allocation and poison oracles as in xcodecs"})
 }
